@@ -236,9 +236,8 @@ func vf07GenProtoList(rt *rapid.T, label string) []byte {
 
 // vf07GenBody draws a body for extension type typ: mostly grammar-shaped with boundary choices, sometimes raw bytes.
 func vf07GenBody(rt *rapid.T, label string, typ uint16) []byte {
-	strict := false
-	switch rapid.IntRange(0, 9).Draw(rt, label+"_mode") {
-	case 0, 1, 2, 3:
+	strict := strings.HasPrefix(label, vf07StrictMark) // forced by the caller
+	if !strict && rapid.IntRange(0, 9).Draw(rt, label+"_mode") < 4 {
 		strict = true
 		label = vf07StrictMark + label
 	}
